@@ -1,0 +1,5 @@
+//go:build !verif
+
+package chord
+
+func verifManualTasks() bool { return false }
